@@ -138,6 +138,17 @@ def shard(binpath, seed, sh, n):
     cases = []
     for sc in scs:
         files = {f"{l['step']}.{W.pfx(l['key'])}.link": scen.dumps(wires[l["req"]]) for l in sc["links"]}
+        # a link directory assembled from per-functionary drop directories: some link files are symbolic links to regular
+        # files kept elsewhere (a file is a file however it got its name)
+        r = rng.random()
+        if r < 0.35:
+            names = sorted(files)
+            dis = [f"{l['step']}.{W.pfx(l['key'])}.link" for l in sc["links"] if wires[l["req"]]["signed"] != wires[sc["links"][0]["req"]]["signed"]]
+            chosen = dis[:1] if (dis and r < 0.25) else [rng.choice(names)] if r < 0.3 else names
+            for nm in chosen:
+                files["drop/" + nm + ".data"] = files[nm]
+                files[nm] = {"symlink": "drop/" + nm + ".data"}
+            sc["meta"]["symlinked"] = "dissenter" if (dis and chosen == dis[:1]) else "one" if len(chosen) == 1 else "all"
         cases.append(scen.verify_case(wires[sc["base"]], [[W.kid("ed0"), W.pub("ed0")]], files, reps=8,
                                       probe_ids=sc["ids"], meta=sc["meta"]))
     obs = common.run_batch(binpath, cases)
@@ -151,9 +162,11 @@ def shard(binpath, seed, sh, n):
                "accepted" if oks else "rejected"]
         if not m["dissent_in_artifacts"] and oks:
             cls.append("positive_control_accepted")
+        if m.get("symlinked"):
+            cls.append(f"link_files_are_symlinks:{m['symlinked']}:" + ("accepted" if oks else "rejected"))
         if m.get("cosigned"):
             cls.append("dissenter_cosigned_another_link:" + ("dissent" if m["dissent_in_artifacts"] else "no_artifact_dissent"))
-        res.note([c["layout"], sorted(c["files"].items())], True, cls=cls, n=len(o["runs"]))
+        res.note([c["layout"], sorted((k, str(v)) for k, v in c["files"].items())], True, cls=cls, n=len(o["runs"]))
         res.extras["distinct_iteration_orders_seen_max"] = max(res.extras.get("distinct_iteration_orders_seen_max", 0), o.get("distinct_orders", 0))
     if sh == 0:
         for c, o in list(zip(cases, obs))[:3]:
@@ -249,7 +262,7 @@ def main(ctx):
              "or only in byproducts/command (positive control) or not at all; the dissenter has the smallest / middle / "
              "largest key id; 8 verifications per scenario; every scenario non-trivial; distinct by (layout, directory)",
         assumptions=["validity of all links by construction"],
-        required=["crowd:dissent:none", "crowd:accepted", "crowd:rejected", "positive_control_accepted", "dissent:path", "dissent:digest", "dissent:alg", "dissent:extra",
+        required=["link_files_are_symlinks:dissenter:rejected", "link_files_are_symlinks:all:accepted", "crowd:dissent:none", "crowd:accepted", "crowd:rejected", "positive_control_accepted", "dissent:path", "dissent:digest", "dissent:alg", "dissent:extra",
                   "dissent:missing", "where:materials", "where:products", "rank:smallest", "rank:largest", "rank:middle",
                   "surplus_links", "threshold:2", "threshold:3", "threshold:4", "dissent:byproducts_only", "dissent:digest_truncated", "dissent:path_respelled",
                   "dissent:delegated:none", "dissent:delegated:digest", "dissent:inner_step_of_surplus_sublayout:digest", "dissent:inner_step_of_surplus_sublayout:none", "dissent:delegated:extra", "dissent:extra_without_digests", "dissent:digests_emptied", "dissenter_cosigned_another_link:dissent", "dissenter_cosigned_another_link:no_artifact_dissent"],
